@@ -1,7 +1,7 @@
 """C20 -- Decompression is total: any bit string gives a buffer or the rule-ID error."""
 from core import rng_for, mk, bits_of, L, R, randbits, Buffer
 from schc_run import Batch, obs_bits, with_timeout, parse_model_bits
-from schc_util import n_rule, n_pdesc, rules_tokens, tb, ref_compress, gen_rule, KINDS
+from schc_util import n_rule, n_pdesc, rules_tokens, tb, ref_compress, gen_rule, KINDS, fid_of
 from gens import gen_parsed, gen_ruleset, b2s
 from microschc.rfc8724extras import Context
 from microschc.manager import ContextManager
@@ -37,6 +37,16 @@ def run(rep, tier, seed):
         stack, pkt, st, pd = gen_parsed(rnd, STACKS[i % len(STACKS)])
         pd.direction = DI.UP
         rules = gen_ruleset(rnd, pd, match_prob=0.9)
+        # the property's domain is well-formed rule sets: a near-miss mutant whose edit moved, duplicated, dropped or re-labelled
+        # fields around a compute action (compute on a field that has no compute function, or outside its stack layout) is
+        # replaced by a well-formed rule under the same id
+        pd_ids = [fid_of(f.id) for f in pd.fields]
+        for k, r in enumerate(rules):
+            nr_ = n_rule(r)
+            if any(f['cda'] == 'c' for f in nr_['fds']) and ([tuple(f['fid']) for f in nr_['fds']] != [tuple(x) for x in pd_ids]
+                                                             or any(f['cda'] == 'c' and f['len'] != len(bits_of(pf.value)) for f, pf in zip(nr_['fds'], pd.fields))):
+                rules[k] = gen_rule(rnd, pd, nr_['id'], kinds=KINDS)
+                rep.hist['ill-formed-mutant-replaced'] = rep.hist.get('ill-formed-mutant-replaced', 0) + 1
         nrs = [n_rule(r) for r in rules]
         cm = ContextManager(Context(id='c', description='', interface_id='i', parser_id=stack, ruleset=rules))
         npd = n_pdesc(pd)
